@@ -129,6 +129,16 @@ func effectScan(prog *Program, cs *ContractSet) ([]*ObligSummary, []string, []st
 					if in.Op == token.ARROW {
 						add("channel receive")
 					}
+				case *ssa.Store:
+					// process-local mutable state: a write to a package-level variable survives the transaction and
+					// differs between replicas (restart, replay, different call history)
+					if g := globalRoot(in.Addr); g != nil {
+						add("write to package-level variable " + g.Pkg.Pkg.Name() + "." + g.Name())
+					}
+				case *ssa.MapUpdate:
+					if g := globalRoot(in.Map); g != nil {
+						add("write to package-level map " + g.Pkg.Pkg.Name() + "." + g.Name())
+					}
 				case *ssa.Range:
 					if _, isMap := in.X.Type().Underlying().(*types.Map); isMap {
 						mapRanges[fn] = append(mapRanges[fn], mapRange{fn: fn, rng: in, loops: loops})
@@ -277,4 +287,27 @@ func (m mapRange) returnsInside() int {
 		}
 	}
 	return n
+}
+
+// globalRoot: the package-level variable an address or value is derived from (through field/index addressing and
+// loads of pointers/maps held in globals), or nil.
+func globalRoot(v ssa.Value) *ssa.Global {
+	for i := 0; i < 8 && v != nil; i++ {
+		switch t := v.(type) {
+		case *ssa.Global:
+			return t
+		case *ssa.FieldAddr:
+			v = t.X
+		case *ssa.IndexAddr:
+			v = t.X
+		case *ssa.UnOp:
+			if t.Op != token.MUL {
+				return nil
+			}
+			v = t.X
+		default:
+			return nil
+		}
+	}
+	return nil
 }
